@@ -67,6 +67,11 @@ CORPUS = [
     ("-", "fn nop() { } fn main() { let _t = spawn nop(); println(\"z\"); }"),
     ("-", "fn main() { let l = [1..3, 4..=5]; println(l, (1..3).start, [1, 2].len(), \"s\".len(), [[1], [2]][1][0]); let e = new { }; println(e); }"),
     ("-", "fn main() { println(9223372036854775807, -9223372036854775807 - 1, 1_000, - -3, !!true, ?1, ??2); }"),
+    # an `else` block that has statements of its own and ENDS in an `if` (not an `else if` chain: the statements belong to
+    # the block), with and without a local that the trailing `if` uses; next to genuine `else if` chains
+    ("-", "fn pick(n: int) -> str { if n < 0 { \"neg\" } else { println(\"in else\", n); let half = n / 2; if half > 2 { \"big\" } else if half > 0 { \"mid\" } else { \"small\" } } } "
+          "fn main() { println(pick(-1), pick(1), pick(3), pick(9)); if false { println(\"a\"); } else { println(\"b\"); if true { println(\"c\"); } } "
+          "let v = if false { 1 } else { let w = 5; println(\"w\", w); if w > 3 { w } else { 0 } }; println(v); if false { } else if false { } else { println(\"chain\"); if true { println(\"tail\") } } }"),
     # guard statements: a short-circuit operator whose right operand diverges completes normally when the left operand
     # decides — what follows it is reachable (and must survive the optimizer)
     ("-", "fn chk(ok: bool) -> int { ok || { return 0; }; println(\"checked\"); 1 } fn neg(n: int) -> str { n < 0 && { return \"negative\"; }; println(\"not negative\"); \"fine\" } "
